@@ -5,6 +5,8 @@ import (
 	"encoding/binary"
 	"fmt"
 	"math"
+	"runtime"
+	"sync"
 	"reflect"
 
 	"github.com/openacid/slim/encode"
@@ -266,6 +268,55 @@ func batchLaw(items []encItem) error {
 	return verr
 }
 
+// sharedEncoderLaw: one encoder value used by several goroutines at once, each
+// round-tripping its own value (an encoder is held by a trie and used by all of
+// its readers). Stateless encoders cannot fail this; the schedule is sampled.
+func sharedEncoderLaw(items []encItem) error {
+	if len(items) < 2 {
+		return nil
+	}
+	n := len(items)
+	if n > 6 {
+		n = 6
+	}
+	errs := make([]error, n)
+	var wg sync.WaitGroup
+	start := make(chan struct{})
+	for g := 0; g < n; g++ {
+		g := g
+		it := items[g]
+		wg.Add(1)
+		go func() {
+			defer wg.Done()
+			<-start
+			errs[g] = guard("concurrent use of one encoder", func() error {
+				for r := 0; r < 300; r++ {
+					enc := it.e.Encode(it.v)
+					if !bytes.Equal(enc, it.ref) {
+						return viol("shared-encoder", "%s: Encode(%v) = %x while other goroutines use the same encoder, reference layout is %x", it.name, it.v, enc, it.ref)
+					}
+					k, d := it.e.Decode(enc)
+					if k != len(it.ref) || !valEq(d, it.want) {
+						return viol("shared-encoder", "%s: Decode(Encode(%v)) = (%d,%v) while other goroutines use the same encoder", it.name, it.v, k, d)
+					}
+					if r%16 == 0 {
+						runtime.Gosched()
+					}
+				}
+				return nil
+			})
+		}()
+	}
+	close(start)
+	wg.Wait()
+	for _, e := range errs {
+		if e != nil {
+			return e
+		}
+	}
+	return nil
+}
+
 // checkC15: c.Kind names the codec; c.Ints are raw integer values, c.Vals string/byte payloads.
 func checkC15(c *Case, s *Stats) error {
 	junk := []byte(c.Junk)
@@ -326,14 +377,15 @@ func checkC15(c *Case, s *Stats) error {
 		nt = len(junk) > 0
 		s.calls(4 * len(c.Ints))
 	case c.Kind == "TypeEnc":
-		for i, p := range c.Vals {
-			which := c.Block + i
-			big := c.Scrib&1 == 1
-			ctor := c.Scrib >> 2
-			e, err := typeEncoderFor(which, big, ctor)
-			if err != nil {
-				return viol("type-encoder", "TypeEncoder constructor %d rejected a fixed-size struct: %v", ctor%4, err)
-			}
+		// ONE encoder for all values of the case (as a trie or an array holds one)
+		which := c.Block
+		big := c.Scrib&1 == 1
+		ctor := c.Scrib >> 2
+		e, err := typeEncoderFor(which, big, ctor)
+		if err != nil {
+			return viol("type-encoder", "TypeEncoder constructor %d rejected a fixed-size type: %v", ctor%4, err)
+		}
+		for _, p := range c.Vals {
 			v, ref := typeEncCase(which, []byte(p), big)
 			var arg interface{} = v
 			if c.Scrib&2 == 2 {
@@ -355,6 +407,9 @@ func checkC15(c *Case, s *Stats) error {
 		return fmt.Errorf("unknown C15 kind %q", c.Kind)
 	}
 	if err := batchLaw(items); err != nil {
+		return err
+	}
+	if err := sharedEncoderLaw(items); err != nil {
 		return err
 	}
 	if len(items) >= 2 {
